@@ -22,6 +22,11 @@ func Decompose(v ssa.Value) (Atom, bool) {
 	pol := true
 	for {
 		switch x := v.(type) {
+		case *ssa.Call:
+			// errors.Is(err, sentinel) is the modern spelling of err == sentinel (for the bare sentinels compared here)
+			if IsCallTo(x, "errors.Is") && len(x.Call.Args) == 2 {
+				return Atom{Op: token.EQL, X: stripIface(x.Call.Args[0]), Y: stripIface(x.Call.Args[1])}, pol
+			}
 		case *ssa.UnOp:
 			if x.Op == token.NOT {
 				pol = !pol
@@ -328,4 +333,15 @@ func IndependentOf(from Pt, target ssa.Instruction, foreign []IfInfo, stop func(
 		}
 	}
 	return true, ""
+}
+
+func stripIface(v ssa.Value) ssa.Value {
+	for {
+		switch x := v.(type) {
+		case *ssa.ChangeInterface:
+			v = x.X
+		default:
+			return v
+		}
+	}
 }
